@@ -127,6 +127,14 @@
 	#define HFSM2_BREAK_AVAILABLE()										   false
 #endif
 
+#ifdef HFSM2_VERIF // verification hook (add-only): route HFSM2_BREAK()/HFSM2_ASSERT() to an external handler
+	#undef  HFSM2_BREAK
+	#undef  HFSM2_BREAK_AVAILABLE
+	extern "C" void hfsm2_verif_break();
+	#define HFSM2_BREAK()										hfsm2_verif_break()
+	#define HFSM2_BREAK_AVAILABLE()											true
+#endif
+
 #ifdef _DEBUG
 	#define HFSM2_IF_DEBUG(...)										 __VA_ARGS__
 	#define HFSM2_UNLESS_DEBUG(...)
